@@ -494,12 +494,18 @@ def race_stage(mod, seed):
     env = dict(os.environ, VERIF_CASE_TIMEOUT_MS="60000", VERIF_SCHED_TIMEOUT_MS="30000")
     p = subprocess.run([hbin, mod.PROP], input="\n".join(cases) + "\n", stdout=subprocess.PIPE, stderr=subprocess.PIPE,
                        text=True, timeout=3000, env=env)
-    n = p.stderr.count("WARNING: DATA RACE")
-    print(f"{mod.PROP}: -race stage: {len(cases)} scenarios, {n} data race report(s)")
+    reports = [r for r in p.stderr.split("==================") if "WARNING: DATA RACE" in r]
+    # D8 (property C13, its own fix): Queue.Distributor wires `size: q.tracker.len`, an unlocked read of the
+    # tracker that Broker.Stats reaches through Distributor.Len — not a broker defect, not judged here
+    d8 = [r for r in reports if "TrackerImpl).len()" in r and "Distributor" in r and ".Len()" in r]
+    other = [r for r in reports if r not in d8]
+    n = len(other)
+    print(f"{mod.PROP}: -race stage: {len(cases)} scenarios, {n} data race report(s)"
+          + (f" (+{len(d8)} of D8 / C13: Queue.Distributor's unlocked tracker.len, seen through Broker.Stats)" if d8 else ""))
     if n:
         path = C.write_replay(mod.PROP, f"race-{seed}.txt",
                               f"# property {mod.PROP}: data race reported by the -race build\n" +
-                              "\n".join("# " + l for l in p.stderr.splitlines()[:60]) + "\n" + "\n".join(cases[:50]) + "\n")
+                              "\n".join("# " + l for l in other[0].splitlines()[:60]) + "\n" + "\n".join(cases[:50]) + "\n")
         print(f"VIOLATION property={mod.PROP} replay={path} the Go race detector reports {n} data race(s) in broker scenarios")
         return 1
     return 0
